@@ -331,6 +331,9 @@ type RT struct {
 	// schema given to every entry point (C03 only: what such a field reads back
 	// as is not part of the documented mapping)
 	ExplicitSchema bool
+	// NoReassembly: Reconstruct(Deconstruct(v)) is not v by design of the
+	// column types (values stored at a coarser precision)
+	NoReassembly bool
 
 	SchemaOf     func() *parquet.Schema
 	WriteGeneric func(out io.Writer, opts []parquet.WriterOption, rows []any, cuts []int, flush []bool) error
@@ -402,7 +405,10 @@ func mkRTWith[T any](name string, sc func() *parquet.Schema, rows []any) *RT {
 		return append([]parquet.RowGroupOption{sc()}, opts...)
 	}
 	if sc == nil {
-		rt.Rows = rowAlphabet(rt.Type)
+		rt.Rows = rows
+		if rows == nil {
+			rt.Rows = rowAlphabet(rt.Type)
+		}
 		rt.SchemaOf = func() *parquet.Schema { return parquet.SchemaOf(new(T)) }
 	} else {
 		rt.Rows = rows
